@@ -8,5 +8,42 @@ def run_docs(vh, docs, mode="generate", timeout=120, extra_env=None):
     return C.harness_run(vh, "uigen", cases, timeout=timeout)
 
 
+def run_docs_shared(vh, docs, tag, group=5, orders=("forward",)):
+    """the documents translated in groups through ONE BuildContext per group (the way `qmluic generate-ui A.qml B.qml ...` does), in the given orders.
+    Returns {order: [result per document]} with results shaped like run_docs' ({"ui", "diags", "has_error"} or {"syntax_error": True, ...})."""
+    import os
+    import shutil
+    work = os.path.join(C.BUILD, "shared_" + tag)
+    shutil.rmtree(work, ignore_errors=True)
+    cases, where = [], []
+    for g0 in range(0, len(docs), group):
+        root = os.path.join(work, "g%d" % (g0 // group))
+        os.makedirs(root)
+        names = []
+        for j, d in enumerate(docs[g0:g0 + group]):
+            names.append("Doc%d.qml" % j)
+            with open(os.path.join(root, names[-1]), "w") as f:
+                f.write(d)
+        for o in orders:
+            srcs = names if o == "forward" else list(reversed(names))
+            cases.append({"root": root, "sources": srcs, "dirs": []})
+            where.append((o, g0, srcs))
+    out = C.harness_run(vh, "project", cases, timeout=300)
+    res = {o: [None] * len(docs) for o in orders}
+    for (o, g0, srcs), r in zip(where, out):
+        if not isinstance(r, dict) or "docs" not in r:
+            for n in srcs:
+                res[o][g0 + int(n[3:-4])] = r if isinstance(r, dict) else {"crash": str(r)[:300]}
+            continue
+        for n, d in zip(srcs, r["docs"]):
+            d = dict(d)
+            d.setdefault("diags", [])
+            d.setdefault("ui", None)
+            d.setdefault("has_error", False)
+            res[o][g0 + int(n[3:-4])] = d
+    shutil.rmtree(work, ignore_errors=True)
+    return res
+
+
 def parse_ui(text):
     return ET.fromstring(text)
